@@ -391,10 +391,10 @@ func init() {
 			"the requesting administrator holds every account privilege and is not itself edited by the history (authorisation is C05/C06)",
 			"update-user sub-records are well-formed field lists (count + fields)",
 		}
-		x.Add(&Family{Name: "histories", Quick: 400, Thor: 5000, Run: func(c *Case) { c15History(c, 0) }})
-		x.Add(&Family{Name: "rename-chains", Quick: 100, Thor: 1200, Run: func(c *Case) { c15History(c, 1) }})
-		x.Add(&Family{Name: "long-logins", Quick: 32, Thor: 400, Run: c15LongLogins})
-		x.Add(&Family{Name: "yaml-unsafe-strings", Quick: 20, Thor: 200, Run: c15YamlUnsafe})
+		x.Add(&Family{Name: "histories", Quick: 400, Thor: 2500, Run: func(c *Case) { c15History(c, 0) }})
+		x.Add(&Family{Name: "rename-chains", Quick: 100, Thor: 600, Run: func(c *Case) { c15History(c, 1) }})
+		x.Add(&Family{Name: "long-logins", Quick: 32, Thor: 200, Run: c15LongLogins})
+		x.Add(&Family{Name: "yaml-unsafe-strings", Quick: 20, Thor: 100, Run: c15YamlUnsafe})
 	}
 }
 
